@@ -41,7 +41,9 @@ class ErrorExtraction(object):
             if klass in self.registry:
                 extractor = self.registry[klass]
                 try:
-                    return extractor(exception)
+                    # A copy, since the caller adds its own fields and the
+                    # extractor may well hand out a dictionary it keeps:
+                    return dict(extractor(exception))
                 except:
                     from ._traceback import write_traceback
 
